@@ -494,7 +494,12 @@ func c20Schema(c *Ctx) {
 	// rejecting tests: an If one side of which returns a non-nil error, classified by what it reads
 	type rej struct{ what string }
 	found := map[string]bool{}
-	for _, b := range fn.Blocks {
+	sc := c.Scope(fn)
+	var allBlocks []*ssa.BasicBlock
+	for _, f := range sc.Funcs {
+		allBlocks = append(allBlocks, f.Blocks...)
+	}
+	for _, b := range allBlocks {
 		if _, ok := b.Instrs[len(b.Instrs)-1].(*ssa.If); !ok {
 			continue
 		}
@@ -508,8 +513,20 @@ func c20Schema(c *Ctx) {
 			continue
 		}
 		// the acceptance must not be reachable from the error side (it returns), and must come after the test
-		if !(b.Dominates(acc.Block()) || an.ReachableFromBlock(b, acc.Block(), nil)) {
-			continue
+		if b.Parent() == fn {
+			if !(b.Dominates(acc.Block()) || an.ReachableFromBlock(b, acc.Block(), nil)) {
+				continue
+			}
+		} else {
+			// the test sits in a helper split out of convertSchema: the schema is accepted only
+			// after that helper returned without an error
+			site, isCall := sc.Lift(b.Instrs[len(b.Instrs)-1]).(ssa.CallInstruction)
+			if !isCall {
+				continue
+			}
+			if okS, _ := an.SuccessDominates(site, acc); !okS {
+				continue
+			}
 		}
 		reads := map[string]bool{}
 		errBlock := b.Succs[errSide]
